@@ -380,3 +380,16 @@ def rules(ctx: Ctx) -> None:
     ok = bool(adds) and bool(exts) and not any(ccfg.reach(e, a) for e in exts for a in adds)
     ctx.ob("R01.8", "cte-names-registered-before-bodies-extracted", ok, cex.loc(),
            "no CTE body is extracted while a CTE of the same WITH is still unregistered (a recursive or forward reference would be reported as a table)")
+    # ---- R01.9 node attributes are set for named nodes only --------------------------------------------------------------------
+    # nx.set_node_attributes(G, <scalar>, name) sets the attribute on *every* node of G: clearing the WRITE tag "of the sub-query" that way also
+    # clears it on the statement's real target when the sub-query reads that table
+    n_sna = 0
+    for f in prog.funcs.values():
+        for k in prog.walk_fn(f):
+            if isinstance(k, ast.Call) and isinstance(k.func, ast.Attribute) and k.func.attr == "set_node_attributes" and len(k.args) >= 2:
+                n_sna += 1
+                vals = prog.value_sources(f, k.args[1])
+                named = all(isinstance(v, (ast.Dict, ast.DictComp)) or (isinstance(v, ast.Call) and isinstance(v.func, ast.Name) and v.func.id == "dict") for v in vals) and bool(vals)
+                ctx.ob("R01.9", f"node-attributes-set-for-named-nodes:{f.owner}", named, loc(f.mod, k),
+                       f"`{u(k)[:70]}`: the values must be a mapping node -> value; a scalar is applied to every node of the graph")
+    ctx.floor("set_node_attributes call sites", n_sna, 3)
